@@ -20,7 +20,7 @@ from typing import Dict, List, Optional, Set, Tuple
 from ..core import AnalysisError, Func, Repo, dotted, norm, parents
 from ..cfg import CFG
 from ..report import Check
-from ..util import call_name, calls_in
+from ..util import call_name, calls_in, impl_funcs, origins
 
 M = 'pydoctor.model'
 
@@ -84,7 +84,8 @@ def run(repo: Repo, chk: Check, thorough: bool = False) -> None:
         if f is None:
             chk.error(f'R16.2: reporter {q} no longer exists: re-confirm the reporter table')
             continue
-        reps = [c for c in calls_in(f) if call_name(c) == 'report']
+        # (the reporter with the private helpers the report may have been moved into: `self._report_unresolved_xref(...)`)
+        reps = [c for g_ in impl_funcs(repo, f, depth=2) for c in calls_in(g_) if call_name(c) == 'report']
         if not reps:
             chk.ob('R16.2', f'{q} :: {what}', False, 'no report(...) call left: the problem is no longer reported', f.loc)
             continue
@@ -243,9 +244,17 @@ def run(repo: Repo, chk: Check, thorough: bool = False) -> None:
             if arg is None:
                 continue
             exprs = [arg]
+            keyf = f
             if isinstance(arg, ast.Name):
                 exprs = [n.value for n in f.walk() if isinstance(n, (ast.Assign, ast.AnnAssign, ast.AugAssign)) and n.value is not None and
                          any(isinstance(t, ast.Name) and t.id == arg.id for t in (n.targets if isinstance(n, ast.Assign) else [n.target]))] or [arg]
+                if exprs == [arg] and arg.id in [p_.arg for p_ in f.params()] and f.name.startswith('_'):
+                    # the construction sits in a private helper that is handed the line: the docutils line is read at the call sites, and the
+                    # obligation belongs to the function that reads it (`self._report_unsplit(tagname, node.line, e)` in visit_field)
+                    og = [(g_, e_) for g_, e_ in origins(repo, f, arg.id, depth=1)]
+                    if og:
+                        keyf = og[0][0]
+                        exprs = [arg] + [e_ for _, e_ in og]
             docutils_line = any((isinstance(x, ast.Attribute) and x.attr == 'line') or
                                 (isinstance(x, ast.Call) and call_name(x) == 'get' and x.args and isinstance(x.args[0], ast.Constant) and x.args[0].value == 'line')
                                 for e in exprs for x in ast.walk(e))
@@ -255,7 +264,7 @@ def run(repo: Repo, chk: Check, thorough: bool = False) -> None:
             converted = any(isinstance(x, ast.BinOp) and isinstance(x.op, ast.Sub) and isinstance(x.right, ast.Constant) and x.right.value == 1 for e in exprs for x in ast.walk(e)) or \
                 any(isinstance(n, ast.AugAssign) and isinstance(n.op, ast.Sub) and isinstance(n.value, ast.Constant) and n.value.value == 1 and
                     isinstance(n.target, ast.Name) and isinstance(arg, ast.Name) and n.target.id == arg.id for n in f.walk())
-            chk.ob('R16.5', f'{f.qn} :: ParseError line taken from docutils is converted to the 0-based convention', converted,
+            chk.ob('R16.5', f'{keyf.qn} :: ParseError line taken from docutils is converted to the 0-based convention', converted,
                    '1-based docutils line - 1' if converted else
                    f'`{norm(c)[:60]}` hands docutils\' 1-based line to ParseError, which counts from 0: the problem is reported one line below the block that contains it '
                    '(past the end of the file for an error on the last line)', repo.loc(f.mod, c))
